@@ -48,7 +48,7 @@ def V(f, p, la, lo):
     return {'uniform': 0, 'lon': -10 * lo, 'lat': 20 * la, 'lev': -20 * p, 'mixed': 10 * lo + 20 * la - 20 * p}[f]
 
 
-def write_file(d: Path, field, u0, v0, with_time):
+def write_file(d: Path, field, u0, v0, with_time, lay='era5'):
     import xarray as xr
 
     u = np.zeros((4, 4, 4))
@@ -61,6 +61,9 @@ def write_file(d: Path, field, u0, v0, with_time):
     # ERA5 layout: descending pressure levels and latitudes
     lev, lat = PAD_LEVELS, PAD_LATS[::-1]
     u, v = u[:, ::-1, :], v[:, ::-1, :]
+    if lay == 'asc':  # the other storage order of both axes (Wind.tla LayoutCases)
+        lev, lat = lev[::-1], lat[::-1]
+        u, v = u[::-1, ::-1, :], v[::-1, ::-1, :]
     if with_time:
         times = np.array([np.datetime64('2024-09-01T00') + np.timedelta64(h, 'h') for h in range(24)])
         uu = np.stack([u if h == 12 else u + 100.0 + h for h in range(24)])
@@ -83,7 +86,7 @@ def write_file(d: Path, field, u0, v0, with_time):
 _w = {}
 
 
-def _weather(field, u0, v0, with_time):
+def _weather(field, u0, v0, with_time, lay='era5'):
     import atexit
 
     from AEIC.weather import Weather
@@ -94,10 +97,10 @@ def _weather(field, u0, v0, with_time):
         from .traj_common import load_config
 
         load_config()
-    key = (field, u0, v0, with_time)
+    key = (field, u0, v0, with_time, lay)
     if key not in _w:
         d = _w['root'] / f'w{len(_w)}'
-        write_file(d, field, u0, v0, with_time)
+        write_file(d, field, u0, v0, with_time, lay)
         _w[key] = Weather(data_dir=d)
     return _w[key]
 
@@ -132,7 +135,7 @@ def run_case(case):
                 w = _weather('uniform', c['u'], c['v'], with_time)
                 pos = (1, 1, 1)
             elif c['kind'] == 'field':
-                w = _weather(c['f'], c['u0'], c['v0'], with_time)
+                w = _weather(c['f'], c['u0'], c['v0'], with_time, c.get('lay', 'era5'))
                 pos = (c['hp'], c['hla'], c['hlo'])
             else:
                 w = _weather('mixed', 0, 0, with_time)
